@@ -79,7 +79,45 @@ Proof.
   apply andb_false_iff in E1. unfold zlen in E1. destruct E1 as [E1|E1]; lia.
 Qed.
 
-Lemma gen_play_loop cfg : forall fuel pos s log,
+(* an accepted move keeps the board a list of size^2 stacks (the translated has_road indexes the board) *)
+Lemma slide_go_zlen p dx dy : forall drops x y carry nb b,
+  slide_go p dx dy x y carry nb drops = Some b -> zlen b = zlen nb.
+Proof.
+  induction drops as [|d ds IH]; intros x y carry nb b H; cbn [slide_go] in H; [inversion H; reflexivity|].
+  destruct (negb (in_bounds (size p) (x + dx) (y + dy))); [discriminate|].
+  destruct (getz [] (board p) (x + dx + (y + dy) * size p)) as [|top rest].
+  - apply IH in H. rewrite H. apply zlen_updz.
+  - destruct (pkind top).
+    + apply IH in H. rewrite H. apply zlen_updz.
+    + destruct carry as [|c [|c' carry']]; try discriminate.
+      destruct (kind_eqb (pkind c) Capstone); [|discriminate]. apply IH in H. rewrite H. apply zlen_updz.
+    + discriminate.
+Qed.
+
+Lemma move_road_ok p m q : road_ok p -> move p m = Some q -> road_ok q.
+Proof.
+  intros (Hn & Hs) H. unfold road_ok, shape in *. unfold move in H.
+  destruct (negb (in_bounds (size p) (mx m) (my m))); [discriminate|].
+  destruct (is_slide (mt m)).
+  - destruct (mslides m) as [drops|]; [|discriminate]. unfold move_slide in H.
+    destruct (ply p <? 2); [discriminate|]. destruct (existsb _ drops); [discriminate|].
+    destruct (_ || _); [discriminate|]. destruct (zsum drops <? 1); [discriminate|].
+    destruct (sq p (mx m) (my m)) as [|top rest]; [discriminate|].
+    destruct (negb _); [discriminate|]. destruct (direction (mt m)) as [dx dy].
+    destruct (slide_go _ _ _ _ _ _ _ _) as [b|] eqn:Eg; [|discriminate]. injection H as <-.
+    apply slide_go_zlen in Eg. rewrite zlen_updz in Eg. cbn [size board with_board]. split; [exact Hn|]. rewrite Eg. exact Hs.
+  - unfold move_place in H. destruct (_ && _); [discriminate|].
+    destruct (sq p (mx m) (my m)); [|discriminate].
+    repeat match type of H with
+           | (if ?c then None else _) = Some _ => destruct c; [discriminate|]
+           | (let _ := _ in _) = _ => cbv zeta in H
+           end.
+    injection H as <-.
+    destruct (if ply p <? 2 then flip (to_move p) else to_move p), (mtype_eqb (mt m) PlaceCapstone);
+      cbn [size board]; rewrite zlen_updz; split; assumption.
+Qed.
+
+Lemma gen_play_loop cfg : forall fuel pos s log, road_ok pos ->
   kids_ok cfg pos s -> (Z.to_nat (sp_ply_limit cfg - ply pos + 1) < fuel)%nat ->
   res_map st_log (SelfPlayGen.play_one_game_while1 fuel cfg s pos log) =
   match play_loop cfg pos (map answer_of s) with
@@ -87,12 +125,12 @@ Lemma gen_play_loop cfg : forall fuel pos s log,
   | Err e => Crash (exn_of e)
   end.
 Proof.
-  induction fuel as [|fuel IH]; intros pos s log Hk Hf; [lia|].
+  induction fuel as [|fuel IH]; intros pos s log Hok Hk Hf; [lia|].
   cbn [SelfPlayGen.play_one_game_while1].
   destruct s as [|t rest]; cbn [map play_loop kids_ok] in *.
   all: rewrite Z.gtb_ltb; destruct (sp_ply_limit cfg <? ply pos) eqn:El.
   all: try (cbn [res_map st_log snd]; unfold tr_app; destruct log; cbn; rewrite !app_nil_r; reflexivity).
-  all: rewrite gen_winner_eq; cbn [bind]; destruct (winner pos) as [c [r|]].
+  all: rewrite (gen_winner_ok pos Hok); cbn [bind]; destruct (winner pos) as [c [r|]].
   all: try (cbn [res_map st_log snd]; unfold tr_app; destruct log; cbn; rewrite !app_nil_r; reflexivity).
   - reflexivity.
   - cbn [engine_analyze bind]. cbv zeta. destruct Hk as (Hpick & Hkids & Hrest).
@@ -113,6 +151,7 @@ Proof.
       cbn [fst]. rewrite Hm. cbn [child_position snd]. rewrite IH.
       * destruct (play_loop cfg q (map answer_of rest)) as [tr e f|e]; cbn [cons_row]; [|reflexivity].
         unfold tr_app. destruct log. cbn. rewrite <- !app_assoc. reflexivity.
+      * exact (move_road_ok _ _ _ Hok Hm).
       * exact Hrest.
       * rewrite (move_ply _ _ _ Hm). apply Z.ltb_ge in El. lia.
 Qed.
@@ -126,7 +165,9 @@ Theorem gen_play_one_game_eq cfg s : 0 <= sp_size cfg <= 8 -> kids_ok cfg (start
 Proof.
   intros Hsz Hk. unfold SelfPlayGen.play_one_game, SelfPlay.play_one_game.
   rewrite gen_from_config_eq by (split; intros _; cbn [csize]; lia). cbn [bind]. cbv zeta. fold (start cfg).
-  pose proof (gen_play_loop cfg (Z.to_nat (Z.max (sp_ply_limit cfg + 2) 1)) (start cfg) s tr_new Hk) as H.
+  assert (Hok : road_ok (start cfg)).
+  { split; [cbn; lia|]. unfold shape, start, from_config. cbn [board size csize]. unfold zlen. rewrite repeat_length. nia. }
+  pose proof (gen_play_loop cfg (Z.to_nat (Z.max (sp_ply_limit cfg + 2) 1)) (start cfg) s tr_new Hok Hk) as H.
   assert (Hp : ply (start cfg) = 0) by reflexivity.
   specialize (H ltac:(rewrite Hp; lia)).
   destruct (SelfPlayGen.play_one_game_while1 _ cfg s (start cfg) tr_new) as [[[e p] l]| |x];
